@@ -147,7 +147,8 @@ def describe(layout):
         out["index"] = np.asarray(layout.index).tolist()
         out["contents"] = [describe(c) for c in layout.contents]
         return out
-    raise ValueError("cannot describe " + cls)
+    from akmodel.core import Invalid
+    raise Invalid("a %s node inside a layout" % cls)
 
 
 def value_of(x):
